@@ -2,7 +2,7 @@
    Statements only; proofs are in Proofs/ValidateOverlap.v and Proofs/ValidateRules.v. *)
 From Coq Require Import List NArith ZArith String Bool.
 From GQL Require Import Exec.Syntax Validate.VSyntax Validate.Overlap Validate.OverlapSpec Validate.Rules
-     Exec.Exec Proofs.ValidateOverlap Proofs.ValidateRules Proofs.ValidateMerge Proofs.ValidateMemo Proofs.ValidateInputFields Proofs.ValidateArgs Proofs.ValidateCycles Proofs.ValidateUnused Proofs.ValidateMemoHard.
+     Exec.Exec Proofs.ValidateOverlap Proofs.ValidateRules Proofs.ValidateMerge Proofs.ValidateMemo Proofs.ValidateInputFields Proofs.ValidateArgs Proofs.ValidateCycles Proofs.ValidateUnused Proofs.ValidateMemoHard Proofs.ValidateL1.
 Import ListNotations.
 Open Scope string_scope.
 
@@ -89,6 +89,15 @@ Theorem C02_merge_safe_partial : forall S D,
     oc_name o1 = oc_name o2 /\ same_args (oc_args o1) (oc_args o2) = true.
 Proof. exact merge_safe_level. Qed.
 Print Assumptions C02_merge_safe_partial.
+
+(* The executable Spec oracle of the runner.  L1o is the brute-force check as a three-valued
+   function (None = it ran out of fuel); whenever it returns a verdict, the verdict is the
+   truth value of the Spec L1_accepts -- for every schema, document (cyclic or not) and fuel. *)
+Theorem C02_L1_oracle_reflects : forall S D fuel,
+  (L1o S D fuel = Some true -> L1_accepts S D) /\
+  (L1o S D fuel = Some false -> ~ L1_accepts S D).
+Proof. exact L1o_reflect. Qed.
+Print Assumptions C02_L1_oracle_reflects.
 
 (* L0, merge safety, recursively (MS, group_entries, sub_entries are defined in
    Proofs/ValidateMerge.v).  For a selection set that passes L1 and every depth n: whatever
